@@ -17,7 +17,7 @@ type zf struct {
 var zooTypes = map[string][]zf{
 	"Query": {{"title", "", ""}, {"count", "", ""}, {"ratio", "", ""}, {"flag", "", ""}, {"size", "", ""},
 		{"keeper", "Keeper", "keeper"}, {"keepers", "Keeper", ""}, {"animals", "Animal", ""}, {"things", "Thing", ""},
-		{"grid", "Cell", ""}, {"echo", "", "echo"}, {"tags", "", ""}, {"nums", "", ""}, {"matrix", "", ""}, {"stash", "", "stash"}, {"find", "Keeper", "find"}, {"boss", "Keeper", ""},
+		{"grid", "Cell", ""}, {"echo", "", "echo"}, {"tags", "", ""}, {"nums", "", ""}, {"matrix", "", ""}, {"codes", "", ""}, {"stash", "", "stash"}, {"find", "Keeper", "find"}, {"boss", "Keeper", ""},
 		{"ghost", "", ""}, {"relay", "", "relay"}, {"pick", "Thing", "pick"}, {"join", "", "join"}, {"span", "", "span"}, {"chief", "Keeper", ""}, {"blob", "", "blob"}, {"tagged", "", "tagged"}, {"label", "Tag", ""}, {"labelRef", "TagRef", ""}, {"labelAlso", "Tag", ""}, {"odd", "Thing", ""}, {"stamps", "", ""}, {"levels", "", ""}, {"vari", "", "vari"}, {"triple", "", ""}, {"sized", "", "sized"}},
 	"Keeper": {{"name", "", ""}, {"age", "", ""}, {"pets", "Animal", ""}, {"friend", "Keeper", ""}, {"cells", "Cell", ""},
 		{"motto", "", "motto"}, {"rank", "", ""}, {"dogs", "Dog", ""}, {"ghost", "", ""}, {"nick", "", "nick"}, {"code", "", "code"}},
